@@ -259,6 +259,17 @@ def cleanup(out):
             pass
 
 
+def fit_step(levels, step, limit=6000):
+    """the level step, made ten times coarser until the record crosses at most `limit` levels in all: the exact model
+    sums one rational per crossing and its cost grows with the square of that number (a two-day logger whose rises
+    are metres high crosses tens of thousands of 0.3 mm levels)"""
+    lv = [v for v in levels if v is not None]
+    tv = sum(abs(b - a) for a, b in zip(lv, lv[1:]))
+    while tv / step > limit:
+        step *= 10
+    return step
+
+
 def db_payload_q(t):
     return {
         "step": t["time_grid"][0][0],
